@@ -354,7 +354,8 @@ class XPathFunction(XPathToken):
                 func = copy(self)
                 func._items = [
                     tk if tk.symbol == '?' and not tk else
-                    ValueToken(self.parser, value=tk.evaluate(context)) for tk in self._items
+                    ValueToken(self.parser, value=tk.evaluate(copy(context)))
+                    for tk in self._items
                 ]
                 return func
 
